@@ -207,9 +207,14 @@ def run(out: Outcome) -> None:
                 out.violation(f"{name}(alpha={a!r}) {'accepted' if k is None else 'rejected'} but the stated domain says {'accept' if stated else 'reject'}", {"class": name, "alpha": a})
             lines.append(tag)
             expect.append((k, {"class": name, "alpha": a}))
+    from frouros.detectors.data_drift.batch import JS, KL, BhattacharyyaDistance, HellingerDistance, HINormalizedComplement
+    from frouros.detectors.data_drift.streaming import MMD as MMDStreaming
     for v in INTS:
-        for name, mk, tag in (("MMD.chunk_size", lambda: MMD(chunk_size=v), f"cfg ChunkSize chunk_size={v}"), ("PSI.num_bins", lambda: PSI(num_bins=v), f"cfg PositiveInt value={v}"),
-                              ("IncrementalKSTest.window_size", lambda: IncrementalKSTest(window_size=v), f"cfg PositiveInt value={v}")):
+        for name, mk, tag in ([("MMD.chunk_size", lambda: MMD(chunk_size=v), f"cfg ChunkSize chunk_size={v}"),
+                               ("IncrementalKSTest.window_size", lambda: IncrementalKSTest(window_size=v), f"cfg PositiveInt value={v}"),
+                               ("MMDStreaming.window_size", lambda: MMDStreaming(window_size=v), f"cfg PositiveInt value={v}")] +
+                              [(c.__name__ + ".num_bins", (lambda c=c: c(num_bins=v)), f"cfg PositiveInt value={v}")
+                               for c in (PSI, HellingerDistance, BhattacharyyaDistance, HINormalizedComplement, JS, KL)]):
             try:
                 mk()
                 k = None
